@@ -196,28 +196,51 @@ class Ctx:
             raise Violation(case, d)
         return out
 
-    def hypothesis(self, strategy, max_examples, salt=0, label=None):
-        """Drive ctx.check with a Hypothesis strategy producing cases."""
+    def hypothesis(self, strategy, max_examples, salt=0, label=None, chunk=400):
+        """Drive ctx.check with a Hypothesis strategy producing cases.
+
+        The examples are run in chunks (own seed each): the time budget is looked at
+        between chunks and, inside a chunk, only while nothing has failed yet - once a
+        violation has been seen the shrinker must get honest answers, otherwise
+        Hypothesis reports the test as flaky."""
         import hypothesis
         from hypothesis import HealthCheck, Phase, given, settings
 
-        phases = [Phase.generate, Phase.shrink]
-        st_settings = settings(
-            max_examples=max_examples, deadline=None, database=None,
-            derandomize=False, report_multiple_bugs=False, phases=phases,
-            suppress_health_check=list(HealthCheck), print_blob=False,
-        )
         ctx = self
+        done = 0
+        part = 0
+        while done < max_examples and not self.over_budget():
+            n = min(chunk, max_examples - done)
+            st_settings = settings(
+                max_examples=n, deadline=None, database=None,
+                derandomize=False, report_multiple_bugs=False, phases=[Phase.generate, Phase.shrink],
+                suppress_health_check=list(HealthCheck), print_blob=False,
+            )
+            state = {"failed": False}
 
-        @hypothesis.seed(self.hyp_seed(salt))
-        @st_settings
-        @given(strategy)
-        def prop(case):
-            if ctx.over_budget():
-                return
-            ctx.check(case)
+            @hypothesis.seed(self.hyp_seed(salt) * 1000 + part)
+            @st_settings
+            @given(strategy)
+            def prop(case):
+                if not state["failed"] and ctx.over_budget():
+                    return
+                try:
+                    ctx.check(case)
+                except Violation:
+                    state["failed"] = True
+                    raise
 
-        prop()
+            try:
+                prop()
+            except Violation:
+                raise
+            except BaseException as e:  # Flaky / exception groups wrapping our Violation
+                v = _find_violation(e)
+                if v is not None:
+                    raise v from None
+                raise
+            done += n
+            part += 1
 
     def enumerate(self, cases, exhaustive_label=None):
         """Run an iterable of cases, taking only this shard's share."""
@@ -248,6 +271,20 @@ class Ctx:
             "exhaustive_parts": self.exhaustive_parts,
             "notes": self.notes,
         }
+
+
+def _find_violation(e, depth=0):
+    if isinstance(e, Violation):
+        return e
+    if depth > 6:
+        return None
+    for sub in list(getattr(e, "exceptions", []) or []) + [getattr(e, "__cause__", None),
+                                                            getattr(e, "__context__", None)]:
+        if sub is not None:
+            v = _find_violation(sub, depth + 1)
+            if v is not None:
+                return v
+    return None
 
 
 def _deep_get(case, dotted):
